@@ -120,6 +120,21 @@ def run(ctx):
             if bad or len(res) != len(exp):
                 q, g, e = bad[0] if bad else (None, len(res), len(exp))
                 ctx.violation("interval-fetch:%s:%s" % (pathkind, tag), "get_interval_sequences(%r) gave %r expected %r (width %d)" % (q, g, e, c["width"]), dict(c, text=text, query=q, got=g, expected=e, n_bad=len(bad)))
+        # the same intervals with coordinates held in another integer type that fits them (the property quantifies over intervals, not over int64 columns)
+        top = max(b for n, a, b in all_iv)
+        dts = [dt for dt in (np.int8, np.uint8, np.int16, np.uint16, np.int32, np.uint32, np.uint64) if top <= np.iinfo(dt).max]
+        dt = r.choice(dts)
+        sub = r.sample(all_iv, min(40, len(all_iv)))
+        for pathkind in ("string", "stringencoding"):
+            chrom = [n for n, a, b in sub] if pathkind == "string" else bnp.as_encoded_array([n for n, a, b in sub], StringEncoding(names))
+            kind = "unsigned-64-bit" if dt is np.uint64 else ("8-bit" if np.dtype(dt).itemsize == 1 else "other-width")
+            try:
+                res = text_rows(idx.get_interval_sequences(Interval(chrom, np.array([a for n, a, b in sub], dtype=dt), np.array([b for n, a, b in sub], dtype=dt))))
+            except (OverflowError, TypeError, ValueError) as e:
+                res = "%s: %s" % (type(e).__name__, str(e)[:80])
+            ctx.count("interval_fetches_other_dtype", len(sub))
+            ctx.check("interval:dtype", res == [d[n][a:b] for n, a, b in sub], "interval-fetch:coordinates-of-%s-integer-type:%s" % (kind, pathkind),
+                      "get_interval_sequences with %s coordinates gave %r" % (np.dtype(dt).name, res if isinstance(res, str) else res[:3]), dict(c, text=text, dtype=np.dtype(dt).name, queries=sub[:5]), (text, src, np.dtype(dt).name, pathkind))
         # one by one for a sample (different batch shapes)
         for q in r.sample(all_iv, min(5, len(all_iv))):
             iv = Interval([q[0]], [q[1]], [q[2]])
